@@ -15,7 +15,7 @@ ASSUMPTIONS = ['presentations are generated well-formed for their format; names 
 
 
 def variants(prop, tier):
-    return ['plain'] + (['asan'] if tier == 'thorough' else [])
+    return ['plain', 'asan']
 
 
 def gen_presentation(rng, n, canonical=False, path='LIB'):
@@ -71,6 +71,8 @@ def gen_spec(prop, rng, tier):
             for src in p['sources']:
                 if src['fmt'] in ('msf', 'clu'):
                     src['fmt'] = 'afasta'; src['gapsym'] = '-'; src['width'] = rng.choice([0, 60, 500])
+    if rng.random() < 0.15:
+        spec['_variant'] = 'asan'      # a share of the jobs runs on the ASan+UBSan build: a presentation that corrupts memory quietly
     return spec
 
 
